@@ -565,6 +565,7 @@ fn resolve(raw: Vec<RawNode>, root_sel: Vec<u16>, shape: u8, profile: &ForestPro
     // fixed type per unknown (class, property) pair
     let mut unknown_types: HashMap<(String, String), VariantType> = HashMap::new();
     let mut uid_seen: HashSet<GVal> = HashSet::new();
+    let mut ser_owner: HashMap<(String, String), String> = HashMap::new();
 
     for (i, r) in raw.iter().enumerate() {
         let parent = if i == 0 {
@@ -611,6 +612,16 @@ fn resolve(raw: Vec<RawNode>, root_sel: Vec<u16>, shape: u8, profile: &ForestPro
                     .collect();
                 if let Some(sp) = pick(rp.sel, &candidates) {
                     if !canon_seen.insert(sp.view.roundtrip.clone()) {
+                        continue;
+                    }
+                    // Two canonical properties sharing one serialized name
+                    // (Sound.MaxDistance / RollOffMaxDistance) are a confirmed
+                    // finding (C08 probe); within one forest a class uses only one of them.
+                    let ser_name = sp.view.ser.as_ref().unwrap().name.clone();
+                    let owner = ser_owner
+                        .entry((class.clone(), ser_name))
+                        .or_insert_with(|| sp.view.canonical.clone());
+                    if *owner != sp.view.canonical {
                         continue;
                     }
                     let mut val = match &sp.view.canonical_ty {
